@@ -225,6 +225,40 @@ CHECKS = {
 NOT_BUILT_REASON = "static check for this property is designed (DESIGN.md section 4) but not yet built in this revision"
 
 
+# additions of round 3 (appended to the level text of the property)
+EXTRA = {
+    "C01": " Also decided: the same tables on grids with a non-integral internal size (a pyramid level of an odd-sized grid) and with "
+           "singleton axes; apply_transform / transform_vectors towards an unrelated and a same-cube second grid; hmm / homogeneous_transform "
+           "for every operand form.",
+    "C02": " Also decided: Grid.from_seq / from_numpy with either meaning of the third block; the SimpleITK-side helper GridAttrs "
+           "(index<->physical for float and integer indices, matrices, lattice, corners, center route) under a numpy specification model.",
+    "C03": " Also: center_crop / center_pad requests that exceed / fall below the grid size on some axes.",
+    "C04": " Also: the same index-only operations on images whose grids carry a non-integral internal size; clamped center_crop/center_pad; "
+           "FlowFields.sample re-expresses vectors for every representation.",
+    "C05": " Also: target grids covering the same cube as the source with another size and either flag; explicit CUBE / CUBE_CORNERS axes for the "
+           "modules against an adaptor-computed lattice.",
+    "C06": " Also: ImageTransformer with only the target grid given.",
+    "C07": " Also: taking an inverse leaves the original's buffered displacement unchanged.",
+    "C08": " Also: frozen Parameters (requires_grad_(False)) keep the squashed representation; freezing changes no getter / matrix.",
+    "C10": " Also: all conversions and FlowFields.sample on fractional-size grids against a reference written out from the documented conventions.",
+    "C11": " Also: dtype flow (no float32 intermediate in a float64 computation, positions and field handed to torch in the field's dtype); "
+           "inverse clause at the SVF transforms' buffers.",
+    "C12": " Also: per-image spacing rows that are neither equal nor in ascending batch order.",
+    "C13": " Also: the expv recurrence for every steps / scale / inverse combination (logv iterates on it).",
+    "C14": " Also: mode='bspline' derivatives of order 1 and 2 under anisotropic per-image spacing and strides.",
+    "C15": " Also: inverse(update_buffers / link) and .inv as accessors; cross-cutting rule E1.module-state (no function modifies a module-level "
+           "container in place).",
+    "C16": " Also: every documented (input, target) form of the Tversky index equals the canonical one; NormalizedPairwiseImageLoss constructor "
+           "configurations (which factor divides the loss).",
+    "C17": " Also: 'mean'/'sum' vs 'none' for every regulariser and (p, q) option set; per-image spacing; spline derivative mode.",
+    "C18": " Also: grids with singleton spatial axes; E1.module-state (header parsing does not depend on earlier reads).",
+    "C19": " Also: the pickle reduce/rebuild pair on a copied storage (whole tensors, items, slices, strided views); collate_samples for all four "
+           "field types with several items per sample.",
+    "C20": " Also (structural): E8.saved-inplace — no in-place operation on a tensor that autograd saved as an operation's output; "
+           "E8.hook-receiver — forward hooks are not bound to one instance; E8.guard-placement.",
+}
+
+
 def main():
     sys.path.insert(0, HERE)
     props = [json.loads(l) for l in open(os.path.join(HERE, "properties.jsonl"))]
@@ -238,6 +272,7 @@ def main():
             na.append({"property_id": pid, "reason": reason})
             continue
         _, engine, technique, text, ref = ent
+        text = text + EXTRA.get(pid, "")
         checks.append({
             "property_id": pid,
             "quick_cmd": f"./check {pid} --tier quick",
@@ -269,8 +304,9 @@ def main():
              "kind_free_text": "abstract interpretation of closed-form table code over exact polynomial/rational-function normal forms; concrete control flow; no solver"},
             {"name": "E1 may-alias / in-place effect analysis", "path": "sa/effects.py sa/torch_model.py", "serves_properties": ["C15"],
              "kind_free_text": "flow-sensitive origin tracking with summaries over resolved callees"},
-            {"name": "E8 gradient-flow taint analysis", "path": "sa/gradflow.py", "serves_properties": ["C20"],
-             "kind_free_text": "interprocedural value-dependence analysis with blocker table, flag specialisation and class buffer state"},
+            {"name": "E8 gradient-flow taint analysis", "path": "sa/gradflow.py sa/autograd_lint.py", "serves_properties": ["C20"],
+             "kind_free_text": "interprocedural value-dependence analysis with blocker table, flag specialisation and class buffer state; "
+                               "saved-for-backward typestate and hook-receiver rules"},
             {"name": "format / library specification models", "path": "sa/iomodel.py sa/modmodel.py", "serves_properties": ["C18", "C06", "C07", "C09"],
              "kind_free_text": "host models of numpy, io/zlib, SimpleITK, nibabel, MetaIO/NIfTI conventions and torch.nn.Module semantics"},
             {"name": "E7 sibling/pair/forward rules", "path": "sa/siblings.py", "serves_properties": [c["property_id"] for c in checks if "E7" in c["engine"]],
